@@ -122,6 +122,7 @@ PROPS = {
         not_yet_proved=[],
     ),
     "C08": dict(
+        extra_modules=["CstModel.Props.GenNav"],   # Gen.nd_accessors / tk_kinds: kind() converts afresh on every call, the tree keeps no value of the kind type
         tags=["C08"],
         runs=runs([("probe:c08", "rustc"), ("miri:all", "miri"), ("red", "release")], [("probe:c08", "rustc"), ("miri:all", "miri"), ("red", "release")]),   # red: the `kindstamp` probe (a kind type that remembers its thread)
         rule="cases = one rustc probe each (all in one crate compiled once against the current source; diagnostics mapped back by line): every handle type "
